@@ -15,6 +15,14 @@
 #endif
 
 #define BUF_SIZE 32768
+
+/* Per-thread storage for strings the *_name_from_type() functions build on
+ * demand, so threads working on different contexts don't share a buffer */
+#if defined(_MSC_VER)
+#define ZCK_THREAD_LOCAL __declspec(thread)
+#else
+#define ZCK_THREAD_LOCAL __thread
+#endif
 /* Maximum string length for a compressed size_t */
 #define MAX_COMP_SIZE (((sizeof(size_t) * 8) / 7) + 1)
 
